@@ -16,7 +16,7 @@ def run(tier, seed):
         "TRUSTED recorder DfBase._wire_up (ghost trace of the node and the wires it is asked to connect, in order); what wiring does is C01 / C04",
     ]
     res.assumptions = ["the inserted builder is a stand-alone one (its parent node is the root of its own HUGR, a different HUGR object)", "the ghost traces are parallel sequences"]
-    standard_flow(res, FILES, TARGETS, None, bounded_modules=[("bounded.c08", 300, 1800)])
+    standard_flow(res, FILES, TARGETS, None, bounded_modules=[("bounded.c08", 900, 1800)])
     res.level = "other"
     res.explanation = ("Proved for all builders, wires and argument counts: insert_nested / insert_cfg / insert_conditional / insert_tail_loop (through _insert_nested_impl) perform exactly one "
                        "insertion of the given builder's HUGR under the inserting builder's own parent node, return the image of its root, and wire that image to exactly the given wires in the "
